@@ -408,10 +408,60 @@ def replay(ctx, rec):
 # thorough tier: find_sources_in_image with and without a mask region
 
 
+WORKFILE = 'field.mim'        # ONE working file name, rewritten with every case's region (a history in one process)
+_history = dict(last_file_region=None)
+CSV_COLS = ('ra', 'dec', 'peak_flux', 'int_flux', 'a', 'b', 'pa', 'err_ra', 'err_dec', 'err_peak_flux', 'local_rms')
+
+
+def write_workfile(ctx, spec):
+    path = os.path.join(ctx.tmpdir(), WORKFILE)
+    make_region(spec).save(path)
+    _history['last_file_region'] = spec
+    return path
+
+
+def cli_components(ctx, image, mimpath, flood, seed):
+    """aegean CLI in process: main([image, --region, path, --table, out]) ; returns the component rows of the table"""
+    import contextlib
+    import csv
+    import io
+    import logging
+    from AegeanTools.CLI import aegean
+    out = os.path.join(ctx.tmpdir(), 'cli_out.csv')
+    comp = out.replace('.csv', '_comp.csv')
+    for f in (comp, out.replace('.csv', '_isle.csv')):
+        if os.path.exists(f):
+            os.remove(f)
+    root = logging.getLogger()
+    handlers, level = list(root.handlers), root.level
+    sink = io.StringIO()
+    try:
+        with contextlib.redirect_stdout(sink), contextlib.redirect_stderr(sink), np.errstate(all='ignore'), \
+                warnings.catch_warnings():
+            warnings.simplefilter('ignore')
+            rc = aegean.main([image, '--region', mimpath, '--table', out, '--forcerms', '1', '--forcebkg', '0',
+                              '--cores', '1', '--seedclip', repr(seed), '--floodclip', repr(flood)])
+    finally:
+        root.handlers[:] = handlers
+        root.setLevel(level)
+    if rc not in (0, None):
+        raise RuntimeError(f"aegean main returned {rc}: {sink.getvalue()[-300:]}")
+    rows = []
+    if os.path.exists(comp):
+        with open(comp) as fh:
+            for r in csv.DictReader(fh):
+                rows.append(tuple(common.f2h(float(r[k])) for k in CSV_COLS) + (int(r['flags']),))
+    return sorted(rows)
+
+
 def finder_region_one(ctx, c):
+    """one image + one region, through the public entry points, every route compared with the filtered
+    unrestricted run: routes 'object' (mask=Region), 'file' (mask=<the one working .mim path>, rewritten
+    with this case's region), 'cli' (aegean main --region <same path> --table)"""
     from astropy.io import fits
     from astropy.wcs import WCS
     im, bkg, rms, flood, seed, _ = base.arrays(c)
+    routes = c.get('routes') or (['file'] if c.get('as_file') else ['object'])
     hdu = fits.PrimaryHDU(im.astype(np.float64))
     for k, v in base.HDR.items():
         hdu.header[k] = v
@@ -430,46 +480,79 @@ def finder_region_one(ctx, c):
         return
     allw, _ = base.oracle(im, bkg, rms, flood, seed, None)
     want = [wd for wd in allw if any(ins[p] for p in wd[1])]
-    mask_arg = reg
-    if c.get('as_file'):                      # the region given as a .mim file, as `aegean --region` does
-        mask_arg = os.path.join(ctx.tmpdir(), f"region_{base.case_key(c)}.mim")
-        reg.save(mask_arg)
+    want_set = {(wd[0], len(wd[1])) for wd in want}
+    # replaying a recorded failure: first re-create the history (the working file held another region before)
+    if ctx.replay and c.get('prev_file_region') and _history['last_file_region'] is None:
+        try:
+            base.finder_sources(path, flood, seed, mask=write_workfile(ctx, c['prev_file_region']))
+        except Exception:
+            pass
     try:
         comps0, isles0 = base.finder_sources(path, flood, seed)
-        comps1, isles1 = base.finder_sources(path, flood, seed, mask=mask_arg)
     except Exception as e:
         ctx.fail('spec', dict(c, pretty=base.pretty(c)), f"find_sources_in_image raised {type(e).__name__}: {e}",
-                 dict(site='find_sources_in_image', clause='raises', region=True))
+                 dict(site='find_sources_in_image', clause='raises', region=False))
         return
-    bad = None
-    want_set = {(wd[0], len(wd[1])) for wd in want}
-    got_set = set(isles1.values())
-    if got_set != want_set:
-        bad = (f"islands of the restricted run {sorted(got_set)} != islands of the unrestricted run with an own pixel "
-               f"inside the region {sorted(want_set)}")
-    else:
-        # components: those of the unrestricted run whose island is kept, with identical values
-        keep0 = {k for k, v in isles0.items() if v in want_set}
-        exp = sorted(base.comp_tuple(s) + (isles0[int(s.island)],) for s in comps0 if int(s.island) in keep0)
-        got = sorted(base.comp_tuple(s) + (isles1[int(s.island)],) for s in comps1 if int(s.island) in isles1)
-        if len(got) != len(comps1):
-            bad = "components of the restricted run refer to unreported islands"
-        elif exp != got:
-            bad = (f"components of the restricted run ({len(got)}) are not the components (identical values) of the kept "
-                   f"islands of the unrestricted run ({len(exp)})")
-    if bad:
-        ctx.fail('spec', dict(c, pretty=base.pretty(c)), bad,
-                 dict(site='find_sources_in_image', clause='restricted-eq-filter', region=True))
-    ctx.count('finder-region-run')
-    ctx.count('finder-region:' + c['region']['shape'] + ('-file' if c.get('as_file') else '-object'))
-    ctx.count('finder-components', len(comps1))
+    keep0 = {k for k, v in isles0.items() if v in want_set}
+    exp = sorted(base.comp_tuple(s) + (isles0[int(s.island)],) for s in comps0 if int(s.island) in keep0)
+    exp_rows = sorted(base.comp_tuple(s) for s in comps0 if int(s.island) in keep0)
+    ncomp = 0
+    for route in routes:
+        prev = _history['last_file_region']
+        case = dict(c, routes=[route], prev_file_region=prev if route != 'object' else None)
+        bad = None
+        try:
+            if route == 'cli':
+                got_rows = cli_components(ctx, path, write_workfile(ctx, c['region']), flood, seed)
+                ncomp = len(got_rows)
+                if got_rows != exp_rows:
+                    bad = (f"aegean --region {WORKFILE} --table: {len(got_rows)} components, not the {len(exp_rows)} components "
+                           f"(identical values) of the islands of the unrestricted run with an own pixel inside the region")
+            else:
+                mask_arg = reg if route == 'object' else write_workfile(ctx, c['region'])
+                comps1, isles1 = base.finder_sources(path, flood, seed, mask=mask_arg)
+                ncomp = len(comps1)
+                got_set = set(isles1.values())
+                if got_set != want_set:
+                    bad = (f"islands of the restricted run {sorted(got_set)} != islands of the unrestricted run with an own "
+                           f"pixel inside the region {sorted(want_set)}")
+                else:
+                    got = sorted(base.comp_tuple(s) + (isles1[int(s.island)],) for s in comps1 if int(s.island) in isles1)
+                    if len(got) != len(comps1):
+                        bad = "components of the restricted run refer to unreported islands"
+                    elif exp != got:
+                        bad = (f"components of the restricted run ({len(got)}) are not the components (identical values) of "
+                               f"the kept islands of the unrestricted run ({len(exp)})")
+        except Exception as e:
+            ctx.fail('spec', dict(case, pretty=base.pretty(c)), f"route {route}: raised {type(e).__name__}: {e}",
+                     dict(site='find_sources_in_image', clause='raises', region=True, route=route))
+            continue
+        if bad:
+            if route != 'object' and prev is not None and prev != c['region']:
+                bad += (f"; the working file {WORKFILE} held a different region in the previous run of this process "
+                        f"(the result must depend on the file's current content only)")
+            ctx.fail('spec', dict(case, pretty=base.pretty(c)), f"route {route}: " + bad,
+                     dict(site='find_sources_in_image', clause='restricted-eq-filter', region=True, route=route))
+        ctx.count('finder-region-run')
+        ctx.count('finder-region:' + c['region']['shape'] + '-' + route)
+    ctx.count('finder-components', ncomp)
     H, W = im.shape
     perimeter_inside = bool(ins[0, :].all() and ins[-1, :].all() and ins[:, 0].all() and ins[:, -1].all())
     if perimeter_inside and len(want) < len(allw):
         ctx.count('finder-perimeter-inside-but-island-dropped')
     nt = 0 < len(want) < len(allw) and (any(not all(ins[p] for p in wd[1]) for wd in want) or perimeter_inside)
-    ctx.case(dict(kind='finder', H=c['H'], W=c['W'], islands=len(isles0), kept=len(isles1), components=len(comps1)),
+    ctx.case(dict(kind='finder', H=c['H'], W=c['W'], islands=len(isles0), kept=len(want), routes=routes),
              nontrivial_key=('finder', base.case_key(c)) if nt else None)
+    return True
+
+
+def routes_for(ctx, k):
+    """every case goes through the working file (so consecutive cases rewrite the same path with different
+    discs / holes / depths) interleaved with Region-object runs of the same region; thorough adds the CLI"""
+    r = ['file', 'object'] if k % 2 == 0 else ['object', 'file']
+    if not ctx.quick and k % 3 == 0:
+        r.append('cli')
+    return r
 
 
 def finder_hole_runs(ctx, rng, n):
@@ -486,7 +569,8 @@ def finder_hole_runs(ctx, rng, n):
     done = tries = 0
     while done < n and tries < 4 * n:
         tries += 1
-        H, W = int(rng.integers(24, 33)), int(rng.integers(24, 33))
+        depth = int(rng.choice([11, 12]))
+        H, W = int(rng.integers(28, 37)), int(rng.integers(28, 37))
         yy, xx = np.mgrid[0:H, 0:W]
         im = np.zeros((H, W))
         # compact sources well away from the border; the first one (or two) get a hole
@@ -494,7 +578,7 @@ def finder_hole_runs(ctx, rng, n):
         nsrc = int(rng.integers(2, 5))
         nh = 1 if (nsrc < 3 or rng.random() < 0.6) else 2
         for j in range(nsrc):
-            m = 10 if j < nh else 4          # sources that get a hole stay clear of the image border
+            m = 12 if j < nh else 4          # sources that get a hole stay clear of the image border
             for _t in range(20):
                 r0, c0 = rng.uniform(m, H - 1 - m), rng.uniform(m, W - 1 - m)
                 if all((r0 - a) ** 2 + (c0 - b) ** 2 > 64 for a, b in pos):
@@ -508,15 +592,13 @@ def finder_hole_runs(ctx, rng, n):
         holes = []
         for (r0, c0) in pos[:nh]:
             ra, dec = w.wcs_pix2world([[c0, r0]], 0)[0]
-            holes.append(dict(ra=float(ra), dec=float(dec), radius=float(0.01 * rng.uniform(4.5, 6.0))))
+            holes.append(dict(ra=float(ra), dec=float(dec), radius=float(0.01 * (rng.uniform(4.5, 6.0) if depth == 12 else rng.uniform(6.0, 7.5)))))
         rac, decc = w.wcs_pix2world([[W / 2.0, H / 2.0]], 0)[0]
         spec = dict(shape='circle-hole', ra=float(rac), dec=float(decc), radius=float(rng.uniform(0.6, 1.2)),
-                    depth=12, holes=holes)
+                    depth=depth, holes=holes)
         c = base.mk_case('finder', im, np.zeros_like(im), np.ones_like(im), 4.0, 5.0,
-                         extra=dict(finder=True, region=spec, as_file=bool(done % 2)))
-        n0 = ctx.histogram.get('finder-region-run', 0)
-        finder_region_one(ctx, c)
-        if ctx.histogram.get('finder-region-run', 0) > n0:
+                         extra=dict(finder=True, region=spec, routes=routes_for(ctx, done)))
+        if finder_region_one(ctx, c):
             done += 1
 
 
@@ -537,5 +619,5 @@ def finder_region_runs(ctx, rng, n):
         spec = dict(shape='circle', ra=float(ra0), dec=float(dec0), radius=float(0.01 * rng.uniform(2, 12)),
                     depth=int(rng.choice([10, 11, 12])))
         c = base.mk_case('finder', im, np.zeros_like(im), np.ones_like(im), 4.0, 5.0,
-                         extra=dict(finder=True, region=spec, as_file=bool(_k % 2)))
+                         extra=dict(finder=True, region=spec, routes=routes_for(ctx, _k + 1)))
         finder_region_one(ctx, c)
